@@ -785,6 +785,33 @@ func (x *Exec) compileCall(env *Env, e *SCall) Value {
 		x.declareFun("brune", "(declare-fun brune ((Array Int Int) Int Int) Int)")
 		x.declareFun("brunelen", "(declare-fun brunelen ((Array Int Int) Int Int) Int)")
 		return TV{App(fn, SInt, Select(h, Sel("s-ref", a.T)), Add(Sel("s-off", a.T), i.T), Sub(Sel("s-len", a.T), i.T)), ty}
+	case "typeis", "as":
+		// typeis(x, T): the dynamic type of interface value x is T;  as(x, T): the T it holds
+		a := argTV(0)
+		if a.T.Sort != SIface {
+			env.fail("%s needs an interface value", e.Fun)
+		}
+		var tname string
+		switch t := e.Args[1].(type) {
+		case *SIdent:
+			tname = t.Name
+		case *SUnary:
+			if id, ok := t.X.(*SIdent); ok && t.Op == "*" {
+				tname = "*" + id.Name
+			}
+		}
+		if tname == "" {
+			env.fail("%s: second argument must be a type", e.Fun)
+		}
+		ty := env.resolveType(tname)
+		x.declareFun("dyntype", "(declare-fun dyntype (Iface) Int)")
+		if e.Fun == "typeis" {
+			return TV{And(Not(Eq(a.T, Atom("iface-nil", SIface))), Eq(App("dyntype", SInt, a.T), IntLit(int64(x.v.typeID(ty))))), tBool}
+		}
+		fn := "unbox_" + x.ti.typeKey(ty)
+		sort := x.ti.SortOf(ty)
+		x.declareFun(fn, fmt.Sprintf("(declare-fun %s (Iface) %s)", fn, sort))
+		return TV{App(fn, sort, a.T), ty}
 	case "errseen":
 		if env.st == nil || env.st.errSeen == nil {
 			return TV{False, tBool}
